@@ -19,6 +19,7 @@ import (
 	"k8s.io/client-go/tools/cache"
 
 	proxyv1alpha1 "github.com/kubewharf/kubegateway/pkg/apis/proxy/v1alpha1"
+	gatewayclientset "github.com/kubewharf/kubegateway/pkg/client/kubernetes"
 	proxylisters "github.com/kubewharf/kubegateway/pkg/client/listers/proxy/v1alpha1"
 	"github.com/kubewharf/kubegateway/pkg/ratelimiter/limiter/elector"
 	"github.com/kubewharf/kubegateway/pkg/ratelimiter/options"
@@ -71,13 +72,20 @@ type VerifC18Rig struct {
 }
 
 func VerifC18New(identity string, shardCount int) *VerifC18Rig {
+	return VerifC18NewWith(identity, shardCount, "local", nil)
+}
+
+// VerifC18NewWith: storeKind is "local" or "k8s" (API-backed store in write-through mode: no flusher goroutine)
+// over the given gateway client.
+func VerifC18NewWith(identity string, shardCount int, storeKind string, client gatewayclientset.Interface) *VerifC18Rig {
 	indexer := cache.NewIndexer(cache.MetaNamespaceKeyFunc, cache.Indexers{})
 	el := &verifC18Elector{identity: identity, count: shardCount, led: map[int]bool{}}
 	r := &rateLimiter{
 		runId:              "verif",
 		identity:           identity,
 		shardCount:         shardCount,
-		limitOptions:       options.RateLimitOptions{LimitStore: "local", ShardingCount: shardCount, Identity: identity},
+		limitOptions:       options.RateLimitOptions{LimitStore: storeKind, ShardingCount: shardCount, Identity: identity, K8sStoreSyncPeriod: 0},
+		gatewayClient:      client,
 		leaderElector:      el,
 		clientCache:        NewClientCache(),
 		limitStoreMap:      map[int]_interface.LimitStore{},
@@ -98,6 +106,8 @@ func (g *VerifC18Rig) VerifC18SetLeader(shard int, b bool) {
 	}
 	g.el.mu.Unlock()
 }
+
+func (g *VerifC18Rig) VerifC18IsLeader(shard int) bool { return g.el.IsLeader(shard) }
 
 func (g *VerifC18Rig) VerifC18Leaders() []int {
 	g.el.mu.Lock()
